@@ -837,7 +837,7 @@ def gen_builtin(rng, tier, real_p=0.03):
         case["mode"] = "tuples"
         case["triples"] = [[rng.below(ne), rng.below(nl), rng.choice([-1] + list(range(nv)) * 3)] for _ in range(rng.choice([1, 2, 3, 4, 6]))]
     case["runs"] = gen_runs(rng, tier, real_p, rng.choice([1, 2]), case["seed"])
-    if rng.chance(0.08):
+    if rng.chance(0.12):
         # a learner that can be used but not copied (it holds a generator): only in-process configurations make sense,
         # its triples fail (logged) when it is listed more than once, everybody else must be unaffected
         lrns.append({"type": "nocopy", "tag": len(lrns)})
